@@ -46,6 +46,21 @@ class DerivedProfile(StoreProfile):
             if extra:
                 return extra[0]
         base = rng.choice(ents)
+        if run.params.get("crowd") and r < 0.45:
+            from .base import CROWD_NAMES
+            cs = set(CROWD_NAMES)
+            crowd = [e for e in ents if cs & set(e.split("/")[-1:])]
+            if crowd:
+                e = rng.choice(crowd)
+                unused = [c for c in CROWD_NAMES[:105] if e.rsplit("/", 1)[0] + "/" + c not in ents] if "/" in e else []
+                if unused:
+                    nb = e.rsplit("/", 1)[0] + "/" + rng.choice(unused)
+                    if m.natural_type(nb) == m.natural_type(e) and all(run.store.can_create(c, nb) == "ok" for c in m.configs):
+                        # the crowded level is listed, a new sibling is created, the level is listed again
+                        q += [{"op": "sid", "sid": e}, {"op": "mirror", "sid": nb, "data": None}, {"op": "sid", "sid": nb},
+                              {"op": "sid", "sid": e}, {"op": "sid", "sid": e.rsplit("/", 1)[0]}]
+                        run.probes["crowd_create_episodes"] += 1
+                        return q.pop(0)
         if r < 0.60:
             kind = rng.random()
             tn = m.natural_type(base)
